@@ -202,3 +202,23 @@ Fixpoint loops_ok (inloop : bool) (s : stmt) : bool :=
   end
 with loops_ok_list (inloop : bool) (ss : stmts) : bool :=
   match ss with SNil => true | SCons s r => loops_ok inloop s && loops_ok_list inloop r end.
+
+Definition src_opt (o : option expr) : bool :=
+  match o with Some e => src_expr e | None => true end.
+
+Fixpoint src_stmt (s : stmt) : bool :=
+  match s with
+  | SAssign ts e => src_list ts && src_expr e
+  | SAug t _ e => src_expr t && src_expr e
+  | SAnn t e => src_expr t && src_opt e
+  | SExpr e => src_expr e
+  | SIf c b o => src_expr c && src_stmts b && src_stmts o
+  | SWhile c b o => src_expr c && src_stmts b && src_stmts o
+  | SFor t it b o => src_expr t && src_expr it && src_stmts b && src_stmts o
+  | SBreak | SContinue | SPass => true
+  | SReturn e => src_opt e
+  | SDef b _ => src_stmts b
+  | SOther _ => true
+  end
+with src_stmts (ss : stmts) : bool :=
+  match ss with SNil => true | SCons s r => src_stmt s && src_stmts r end.
